@@ -446,7 +446,7 @@ def get_results(tier):
 REPLAY = os.path.join(BUILD, "replay-target", "release", "replay")
 SCENARIOS = {"take": ["take1", "take2", "take0", "take2L", "take2R"], "map": ["map", "mapL", "mapR"], "filter": ["filter", "filterR"], "scan": ["scan", "scanR"], "skip": ["skip1", "skip1R"], "from_iter": ["from_iter", "from_iterR"],
              "concat": ["concat2", "concat3", "concat2R", "concat2L", "concat3L"], "concat0": ["concat0"], "flatten": ["flatten", "flattenL"], "merge": ["merge2", "merge3", "merge2X", "merge2L", "merge3L", "merge2R"],
-             "combine1": ["combine2", "combine2L"], "combine2": ["combine2", "combine2X", "combine2L"], "combine3": ["combine2", "combine2X", "combine2L"], "share": ["share2", "share3", "share3X", "share3XA"]}
+             "combine1": ["combine2", "combine2L"], "combine2": ["combine2", "combine2X", "combine2L"], "combine3": ["combine2", "combine2X", "combine2L"], "share": ["share2", "share3", "share3X", "share3XA", "share3L"]}
 # C13: two subscriptions of the same source value overlap (suffix O; Q = both started up front); the oracle is the
 # property statement: each subscription, replayed alone with the same decisions of its peers, sees the same
 OVERLAP_SCENARIOS = {"take": ["take2O", "take2OQ", "take2LOQ"], "map": ["mapO", "mapOQ", "mapLOQ"], "filter": ["filterO", "filterOQ"], "scan": ["scanO", "scanOQ", "scanLOQ"], "skip": ["skip1O", "skip1OQ"],
@@ -531,7 +531,7 @@ def thread_search(template, pid, secs):
 # (share: a fan-out nested inside another, or another sink acting during a delivery).
 # They are explored by the bounded stand-in on every run, as a labelled supplement to the proof.
 PROFILE_GAPS = {
-    "share": {"scenarios": ["share2", "share3", "share3X", "share3X@[0,0,2,0,0,2,0,0]#16", "share3XA", "share3XA@[0,0,0,2,0,0]#15"], "why": "nested fan-out (a sink pulls from inside its handler and the source answers at once), another sink acting during a delivery (share3X) and a sink attaching from inside a handler (share3XA) are outside profile R of the unit share",
+    "share": {"scenarios": ["share2", "share3", "share3X", "share3X@[0,0,2,0,0,2,0,0]#16", "share3XA", "share3XA@[0,0,0,2,0,0]#15", "share2L", "share3XAL"], "why": "nested fan-out (a sink pulls from inside its handler and the source answers at once), another sink acting during a delivery (share3X), a sink attaching from inside a handler (share3XA) and an upstream that greets after the subscribing call (L) are outside profile R of the unit share",
               "properties": ["C01", "C02", "C03", "C04", "C05", "C12", "C17"]},
 }
 
